@@ -909,9 +909,19 @@ def execute_generic(prop, scenario, params, streams=None):
             pre08 = oracles.c08_pre(mt) if prop == "C08" else None
             pre18 = oracles.c18_pre(world) if prop == "C18" else None
             pre19 = oracles.c19_pre(world) if prop == "C19" else None
-            sess = driver.run_session(
-                world, model, sdesc, prop, si, gen_cb=gen_cb, sink=scenario["sessions"], check_shape=lambda m, sd: gen.shape_ok(m, sd, params) and gen.ops_allowed(m, sd)
-            )
+            n_recorded = len(scenario["sessions"])
+            try:
+                sess = driver.run_session(
+                    world, model, sdesc, prop, si, gen_cb=gen_cb, sink=scenario["sessions"], check_shape=lambda m, sd: gen.shape_ok(m, sd, params) and gen.ops_allowed(m, sd)
+                )
+            except core.Desync:
+                if sdesc is None and len(scenario["sessions"]) == n_recorded:
+                    # the block structure could not be mapped onto the listing
+                    # before the next session was even generated: the history
+                    # ends here (the scenario - and its replay - has the
+                    # sessions that did run)
+                    break
+                raise
             sess.c08_pre = pre08
             sess.c18_pre = pre18
             if getattr(sess, "c19_pre", None) is None:
